@@ -5,8 +5,12 @@
 package c05
 
 import (
+	"fmt"
 	"strings"
 	"time"
+
+	"k8s.io/apimachinery/pkg/apis/meta/v1/unstructured"
+	"k8s.io/cli-runtime/pkg/resource"
 
 	"verif/checks/c01"
 	"verif/checks/c02"
@@ -221,6 +225,75 @@ func Run(r *fw.Run) {
 		w.NPs = []wm.NP{np}
 		return Case{w, exp}
 	}, Eval)
+
+	// S-duplicated-workload: one workload present both as its controller object and as live Pods that name it as owner
+	// (a dump of a cluster); the ownerReference may spell the owner's apiVersion differently from the manifest
+	type dupCase struct {
+		infos []*resource.Info
+		desc  string
+		exp   bool
+	}
+	fw.Explore(r, "S-duplicated-workload", fw.Full, func(c *fw.Ctx) dupCase {
+		apiv := fw.Pick(c, []string{"apps/v1", "extensions/v1beta1", "apps/v1beta2", ""}, "ownerReference apiVersion")
+		npods := 1 + c.Choose(2, "live pods")
+		order := c.Choose(3, "document order: controller first | pods first | controller between the pods")
+		pol := c.Choose(3, "policy: none | ingress from app=b on 80 | deny all + egress to 10.0.0.0/8")
+		exp := c.Choose(2, "exposure") == 1
+		wl := wm.Workload{Kind: "ReplicaSet", NS: "ns1", Name: "w1", Labels: map[string]string{"app": "a"}, Ports: []wm.CPort{{Name: "http", Num: 80}}, Replicas: 2}
+		ctrl := wm.Express(wl, "ReplicaSet", 2)
+		pods := wm.Express(wl, "Pods", npods)
+		for _, p := range pods {
+			md := p.Object.(*unstructured.Unstructured).Object["metadata"].(map[string]interface{})
+			for _, ref := range md["ownerReferences"].([]interface{}) {
+				if apiv == "" {
+					delete(ref.(map[string]interface{}), "apiVersion")
+				} else {
+					ref.(map[string]interface{})["apiVersion"] = apiv
+				}
+			}
+		}
+		var ws []*resource.Info
+		switch order {
+		case 0:
+			ws = append(ctrl, pods...)
+		case 1:
+			ws = append(pods, ctrl...)
+		default:
+			ws = append(append(append([]*resource.Info{}, pods[:1]...), ctrl...), pods[1:]...)
+		}
+		other := &wm.World{NSs: []wm.NS{{Name: "ns1", Labels: map[string]string{"team": "a"}, HasObj: true}},
+			WLs: []wm.Workload{{Kind: "Deployment", NS: "ns1", Name: "w2", Labels: map[string]string{"app": "b"}, Replicas: 1}}}
+		switch pol {
+		case 1:
+			other.NPs = []wm.NP{{NS: "ns1", Name: "p", PodSel: *wm.ML("app", "a"), Types: []string{"Ingress"}, Ingress: []wm.NPRule{{Peers: []wm.NPPeer{{Pod: wm.ML("app", "b")}}, Ports: []wm.NPPort{{HasPort: true, Num: 80}}}}}}
+		case 2:
+			other.NPs = []wm.NP{{NS: "ns1", Name: "p", PodSel: wm.Sel{}, Types: []string{"Ingress", "Egress"}, Egress: []wm.NPRule{{Peers: []wm.NPPeer{{CIDR: "10.0.0.0/8"}}}}}}
+		}
+		return dupCase{append(other.Infos(), ws...), fmt.Sprintf("ReplicaSet ns1/w1 and %d of its pods (ownerReference apiVersion %q), order %d, policy %d", npods, apiv, order, pol), exp}
+	}, func(cs dupCase, x *fw.Rec) {
+		tr, _ := wm.RunList(cs.infos, cs.exp)
+		x.Outcome(tr.OutcomeKey())
+		x.Describe(func() any {
+			return map[string]any{"case": cs.desc, "exposure": cs.exp, "manifests": wm.InfoYAML(cs.infos)}
+		})
+		if tr.Err != nil {
+			x.Fail("a workload given as controller object and as its pods makes list fail", "", cs.desc+": "+tr.Err.Error())
+			return
+		}
+		for _, b := range tr.WF {
+			x.Fail(Class(b), "", cs.desc+"\n"+strings.Join(tr.WF, "\n"))
+		}
+		n := 0
+		for _, p := range tr.RawPeers {
+			if p.String() == "ns1/w1[ReplicaSet]" {
+				n++
+			}
+		}
+		if n != 1 {
+			x.Fail("not well-formed: a workload is returned as more or less than one peer", "", fmt.Sprintf("%s: %d peers named ns1/w1[ReplicaSet]", cs.desc, n))
+		}
+		x.Nontrivial(cs.desc)
+	})
 
 	// the world scopes of C01 (with and without exposure) and C02
 	for _, sc := range c01.Scopes(r.Quick()) {
